@@ -196,7 +196,9 @@ def pop (l : Lst α) : Lst α × Res Unit :=
   else ({ items := l.items.dropLast, nitems := l.nitems - 1 }, .ok ())
 
 /-- `List_Push_At`: key 0 links at the head; any other key goes through `List_At` (negative keys count from the
-    *old* length, `i = nitems` is refused) and the new node is linked before the node found -/
+    *old* length, `i = nitems` is refused) and the new node is linked before the node found.  Since fix 4077d96 the
+    index is validated before the new element is allocated and assigned (allocation is not part of this model, so
+    the order shows only in that nothing at all happens on the error path). -/
 def pushAt (l : Lst α) (x : α) (i : Int) : Lst α × Res Unit :=
   if i = 0 then ({ items := x :: l.items, nitems := l.nitems + 1 }, .ok ())
   else match l.nodeAt i with
@@ -359,6 +361,50 @@ def sortBy (t : Tup α) (f : α → α → Bool) : Tup α × Res Unit := ({ item
 def copy (t : Tup α) : Tup α := ((⟨[]⟩ : Tup α).assign t.items).1
 
 end Tup
+
+/-! ## Aliased arguments: `assign(x, x)` and `concat(x, x)` (known findings KF-C04-self-assign / KF-C04-self-concat)
+
+  These are what the C functions do when `obj` *is* `self`; they are not reachable through `Op` (whose arguments are
+  values), are excluded from generated cases, and are exercised by the `kfself` witness ops in a forked child. -/
+
+/-- `assign(a, a)`: `Array_Assign` calls `Array_Clear(self)` first and then reads `len(obj)` — of the cleared object -/
+def Arr.assignSelf (a : Arr α) : Arr α × Res Unit := let c := a.clear; c.assign c.items
+
+/-- `assign(l, l)`: `List_Assign` calls `List_Clear(self)` first, then pushes `get(obj, i)` for `i < len(obj) = 0` -/
+def Lst.assignSelf (l : Lst α) : Lst α × Res Unit := let c := l.clear; c.assign c.items
+
+/-- `assign(t, t)`: `Tuple_Assign` reallocs to the same size and stores `get(self, i)` at `i`: no change -/
+def Tup.assignSelf (t : Tup α) : Tup α × Res Unit := t.assign t.items
+
+/-- `concat(a, a)`: `nitems += n; Array_Reserve_More;` then `foreach (item in self)` runs over the *new* `nitems = 2n`
+    records and writes record `n+i ← record i` for `i = 0 … 2n-1`: the visible records `0 … 2n-1` end up as
+    `items ++ items`, but records up to `3n-1` are written — outside the store unless the capacity is at least `3n`
+    (it is exactly `3n` when Reserve_More had to grow, i.e. when the old capacity was below `2n`). -/
+def Arr.concatSelf (a : Arr α) : Arr α × Res Unit :=
+  let n := a.nitems
+  let nslots := reserveMore (n + n) a.nslots
+  if n > 0 ∧ 3 * n > nslots then (a, .ub)
+  else ({ items := a.items ++ a.items, nslots := nslots }, .ok ())
+
+/-- the loop of `List_Concat(l, l)`: `foreach (item in self) List_Push(self, item)` — the iterator is a node of the
+    list that is being extended -/
+def Lst.concatSelfLoop : Nat → Lst α → Option Nat → Option (Lst α)
+  | _, l, none => some l
+  | 0, _, some _ => none
+  | fuel + 1, l, some k =>
+    match l.items[k]? with
+    | none => none
+    | some x =>
+      let l' := (l.push x).1
+      concatSelfLoop fuel l' (l'.iterNext k)
+/-- `concat(l, l)`; `none` = still looping after `fuel` steps -/
+def Lst.concatSelf (l : Lst α) (fuel : Nat) : Option (Lst α) := Lst.concatSelfLoop fuel l l.iterInit
+
+/-- `concat(t, t)`: the block is reallocated to `2n+1` cells and the first store `items[n] = items[0]` overwrites
+    `Terminal`; from then on `Tuple_Iter_Next` (which looks `curr` up from cell 0) cycles through the first `n` cells
+    for ever while the write index keeps growing: cell `2n+1` is outside the block.  An empty Tuple is left alone. -/
+def Tup.concatSelf (t : Tup α) : Tup α × Res Unit :=
+  if t.len = 0 then (t, .ok ()) else (t, .ub)
 
 /-! ## Operations as data, and runs -/
 
